@@ -75,6 +75,23 @@ class PLocal:
     any: list[object] = field(default_factory=list, metadata={"type": "Wildcard", "namespace": "##local"})
 
 
+@dataclass
+class TSpan:
+    """a class the context knows by its element name: inside a wildcard, <tspan> binds to it (not to a generic element)"""
+    class Meta:
+        name = "tspan"
+
+    content: list[object] = field(default_factory=list, metadata={"type": "Wildcard", "namespace": "##any", "mixed": True})
+
+
+@dataclass
+class TBox:
+    class Meta:
+        name = "tbox"
+
+    kids: list[object] = field(default_factory=list, metadata={"type": "Wildcard", "namespace": "##any"})
+
+
 PLACEMENTS = {"list": PList, "single": PSingle, "mixed": PMixed, "typed-other": PTyped, "local": PLocal}
 
 
@@ -264,11 +281,14 @@ def check_owner_text(ctx):
     children (their tails) and after the last one.  A list wildcard and a mixed wildcard keep it, in order; whatever
     the field keeps must come back in the same order (both writers, both handlers)."""
     bodies = ["lead<a>x</a>", "lead<a>x</a>mid<b/>end", '<a k="v">x<b>y</b>z</a>mid<c/>', "lead<a/><b/>", "<a/>tail", "lead"]
+    # children that bind to classes of their own (with wildcards of their own) instead of generic elements: a class instance
+    # has no slot for its tail, so only MIXED content (which keeps text as items of the list) can hold the text after it
+    typed = ["one<tspan>two<b/>x</tspan>three", "<tbox><a/><b>q</b></tbox>tail<tspan/>end", "<tspan><tbox><c/></tbox>in</tspan>out<tbox/>"]
     xctx = XmlContext()
-    for body in bodies:
+    for body in bodies + typed:
         text = f"<R>{body}</R>"
         want = infoset.canon(infoset.parse(text), strip_ws_between_children=False)["content"]
-        for placement in ("list", "mixed"):
+        for placement in (("mixed",) if body in typed else ("list", "mixed")):
             for h in ("native", "lxml"):
                 st, obj, _w = hb.parse(text, h, xctx, PLACEMENTS[placement], "str", ParserConfig())
                 info = {"text": text, "handler": h, "placement": placement}
